@@ -128,14 +128,16 @@ NORMALISE = {'riscv_rvc': n_riscv, 'arm': n_arm, 'thumb': n_thumb, 'x86_64': n_x
 
 
 # ------------------------------------------------------------------ instances
-def instances(rng, cls, n_tuples, max_variants):
-    """yield (variant path, operand values, instance) for concrete operand tuples of every variant"""
-    nv = 0
+def instances(rng, cls, extra_random, max_variants):
+    """yield (variant path, operand values, instance) for concrete operand tuples of every variant.
+    DETERMINISTIC part (independent of the seed, so that a class with a defect always shows it): the variants are
+    evenly spaced; every immediate operand runs through the whole INT_POOL four times: with all register operands
+    equal (register position 0 and len/4 of the class register list) and with pairwise different registers
+    (starting at position len/4 and at the last position).  Only the `extra_random` additional tuples use the seed."""
     holder = {}
 
     def mk(leaf, i):
         return holder['mk'](leaf, i)
-    # enumerate variant shapes once (with dummy values)
     holder['mk'] = lambda leaf, i: (T.real_reg(leaf['cls'], leaf['nums'][0]) if leaf['kind'] == 'reg'
                                     else 0 if leaf['kind'] == 'imm' else 'lab')
     shapes = []
@@ -144,28 +146,46 @@ def instances(rng, cls, n_tuples, max_variants):
         if len(shapes) >= T.MAXCOMB:
             break
     if len(shapes) > max_variants:
-        shapes_idx = sorted(rng.sample(range(len(shapes)), max_variants))
+        shapes_idx = sorted({(k * len(shapes)) // max_variants for k in range(max_variants)})
     else:
         shapes_idx = list(range(len(shapes)))
+    P = len(INT_POOL)
     for vi in shapes_idx:
         lv, path = shapes[vi]
         n_imm = sum(1 for l in lv if l['kind'] == 'imm')
-        count = n_tuples if n_imm else min(n_tuples, 12)
+        plans = []          # (register mode, start position selector, k)
         if not lv:
-            count = 1
-        for k in range(count):
-            vals = []
+            plans = [('same', 0, 0)]
+        elif n_imm:
+            for mode, sel in (('same', 0), ('same', 1), ('diff', 1), ('diff', 2)):
+                plans += [(mode, sel, k) for k in range(P)]
+        else:
+            for mode, sel in (('same', 0), ('same', 1), ('diff', 1), ('diff', 2)):
+                plans += [(mode, sel, k) for k in range(6)]
+        tuples = []
+        for mode, sel, k in plans:
+            vals, jr = [], 0
             for j, leaf in enumerate(lv):
                 if leaf['kind'] == 'reg':
                     nums = leaf['nums']
-                    if k % 3 == 2:      # the same register (position) in every register operand
-                        vals.append(nums[(k // 3) % len(nums)])
-                    else:
-                        vals.append(nums[0] if k == 0 else nums[-1] if k == 1 else rng.choice(nums))
+                    start = (0, len(nums) // 4, len(nums) - 1)[sel]
+                    if n_imm == 0:
+                        start += k * 5          # register-only classes: walk through the register list
+                    vals.append(nums[(start + (jr if mode == 'diff' else 0)) % len(nums)])
+                    jr += 1
                 elif leaf['kind'] == 'imm':
-                    vals.append(INT_POOL[(k + j * 13) % len(INT_POOL)] if k < len(INT_POOL) else rng.choice(INT_POOL))
+                    vals.append(INT_POOL[(k + j * 13) % P])
                 else:
                     vals.append(0)
+            tuples.append(vals)
+        for _ in range(extra_random if lv else 0):
+            tuples.append([rng.choice(l['nums']) if l['kind'] == 'reg' else rng.choice(INT_POOL) if l['kind'] == 'imm' else 0
+                           for l in lv])
+        seen = set()
+        for vals in tuples:
+            if tuple(vals) in seen:
+                continue
+            seen.add(tuple(vals))
             try:
                 ins = build(cls, iter(path), iter(zip(lv, vals)))
             except Exception:   # noqa: BLE001
@@ -305,7 +325,8 @@ def issue_class(key, cn, text, ref, bs):
 
 def benign(key, cn, text, ref, bs):
     """differences that are not encoding defects"""
-    if key == 'm68k' and cn.endswith('b') and len(ref) == len(bs) == 4 and ref[:2] == bs[:2] and ref[3] == bs[3]:
+    if (key == 'm68k' and cn.endswith('b') and re.match(r'^\S+\s+#', text) and len(ref) == len(bs) >= 4
+            and all(x == y for i, (x, y) in enumerate(zip(ref, bs)) if i != 2)):
         return 'byte immediate: the upper byte of the extension word is ignored by the CPU'
     return None
 
@@ -316,7 +337,8 @@ def canon(key, text):
     if key == 'x86_64':
         t = t.replace('movabs', 'mov')
     if key == 'msp430':     # 16-bit machine: #-1 and #65535 are the same immediate
-        t = re.sub(r'-?\d+', lambda m: str(int(m.group(0)) % 65536), t)
+        t = re.sub(r'(?<![a-z])-?\d+', lambda m: str(int(m.group(0)) % 65536), t)
+        t = re.sub(r'^br (.*)$', r'mov \1, r0', t).replace('pc', 'r0')      # br x is the alias of mov x, pc
     return t
 
 
@@ -350,7 +372,7 @@ def oracle(ctx, quick, classes_per_isa=None):
         for c in classes:
             st['classes'] += 1
             try:
-                gen = list(instances(ctx.rng, c, len(INT_POOL) if quick else 3 * len(INT_POOL), 3 if quick else 12))
+                gen = list(instances(ctx.rng, c, 0 if quick else 2 * len(INT_POOL), 8 if quick else 16))
             except Exception:   # noqa: BLE001
                 st['untranslatable'] += 1
                 continue
